@@ -89,3 +89,24 @@ contract("RegistryAcquisitionStrategy.copy", params=dict(self=REF("RegistryAcqui
                   f"r.registry.reference_circuit is (dict_get(strategy_transfer_lookup, {REFC}) "
                   f"if strategy_transfer_lookup is not None and dict_has(strategy_transfer_lookup, {REFC}) else {REFC}))"])
 refines("RegistryAcquisitionStrategy.copy", "IAcquisitionStrategy.copy", props=P)
+
+# ---------------------------------------------------------------- DeclarativeCircuit.add_sub_circuit: a COPY of the sub-circuit is nested
+DC = REF("DeclarativeCircuit")
+CCOK = REF("CircuitCompositeOperation")
+SN = "self._structure._circuit_graph.get_node_iterator()"
+contract("DeclarativeCircuit.add_sub_circuit", params=dict(self=DC, operation=CCOK), returns=REF("ICircuitCompositeOperation"), props=P, inst_depth=2,
+         heap_closure=True,
+         modifies=["SingleQubitOperation.relation", "TwoQubitOperation.relation", "DispersiveMeasure.relation", "Barrier.relation",
+                   "CircuitCompositeOperation.relation", "graph", "dict", "CircuitCompositeOperation._circuit_graph", "DeclarativeCircuit._added_operations"],
+         requires=["self._structure is not None", "operation is not self._structure",
+                   "operation._circuit_graph is not self._structure._circuit_graph"],
+         ensures=["fresh(result)", "typeis(result, CircuitCompositeOperation)", "result is not operation",
+                  # the copy (not the argument) is nested and recorded; the argument's graph is untouched
+                  f"len({SN}) == len(old({SN})) + 1",
+                  f"exists({SN}, lambda n: n.operation is result)",
+                  f"forall({SN}, lambda n: n.operation is not operation or exists(old({SN}), lambda m: m is n))",
+                  "len(self._added_operations) == len(old(self._added_operations)) + 1",
+                  "self._added_operations[len(old(self._added_operations))] is result",
+                  "seq_is(operation._circuit_graph.get_node_iterator(), old(operation._circuit_graph.get_node_iterator()))",
+                  "let(result, lambda r: typeis(r, CircuitCompositeOperation) and len(r._circuit_graph.get_node_iterator()) == "
+                  "len(old(operation._circuit_graph.get_node_iterator())) and r.repetition_strategy is operation.repetition_strategy)"])
